@@ -92,6 +92,7 @@ def gen(tier, rng, scale):
                             frames_pool.append("r%x" % (x + 1))
         stacks_pool = []
         times = {}
+        used_times = set()
         # native symbol handles (per thread) and already symbolicated frames that use them; label frames with source locations
         nsyms = []
         spool = {}
@@ -184,7 +185,15 @@ def gen(tier, rng, scale):
             if r < 60 and threads:
                 th = rng.below(len(threads))
                 t = times.get(th, 100) + rng.range(1, 50)
-                times[th] = t
+                if rng.chance(1, 5) and times.get(th, 100) > 160:
+                    # a late sample: its time lies before samples that were added earlier (the table is then serialized through a sort permutation);
+                    # even offsets below, odd-free: sample times of a thread stay distinct
+                    t = times[th] - rng.range(1, 60)
+                    while (th, t) in used_times:
+                        t -= 1
+                else:
+                    times[th] = t
+                used_times.add((th, t))
                 own = [x for x in stacks_pool if x[0] == th or not any(f[0] in "yz" for f in x[1])]      # (subcategory suffixes stay valid: handles are never revoked)
                 if own and rng.chance(1, 3):
                     fr = list(rng.choice(own)[1])
